@@ -230,6 +230,14 @@ def rule_lsbud(ctx: Ctx) -> List[Ob]:
     obs.append(ob("LSBUD", "one objective evaluation per trial", f, (evals[1:] or other or evals or [lp])[0], ok,
                   f"user-reaching calls in the loop: {[short(c.func) for c in sites]}",
                   construct="evaluation sites in the trial loop"))
+    # nothing is evaluated before or after the trial loop: the cap bounds the evaluations of the whole search
+    outside = [c for c, why in ut.sites.get(f.qual, []) if not any(c is x for x in ast.walk(lp))
+               and not (dotted(c.func) or "").endswith("_iterate") and not (dotted(c.func) or "").endswith("minpack2.dcsrch")
+               and not (dotted(c.func) or "").endswith("DCSRCH")]   # the constructor only stores phi / derphi: checked below on SciPy's source
+    obs.append(ob("LSBUD", "no evaluation outside the counted trial loop", f, outside[0] if outside else f.node, not outside,
+                  "all user-reaching calls of line_search are inside the loop" if not outside else
+                  f"user-reaching call(s) outside the loop, not counted against max_iter: {[short(c) for c in outside][:3]}",
+                  construct="evaluation sites outside the trial loop"))
     # only _iterate is called on the DCSRCH object; SciPy's _iterate calls neither phi nor derphi
     meths = sorted({c.func.attr for c in walk_no_nested(f.node) if isinstance(c, ast.Call) and isinstance(c.func, ast.Attribute)
                     and isinstance(c.func.value, ast.Name) and c.func.value.id == "dcsrch"})
@@ -248,4 +256,11 @@ def rule_lsbud(ctx: Ctx) -> List[Ob]:
     obs.append(Ob("LSBUD", "SciPy's DCSRCH._iterate does not call phi / derphi", os.path.relpath(p, "/"), it[0].lineno,
                   "scipy.optimize._dcsrch.DCSRCH._iterate", "DCSRCH._iterate body", not bad,
                   f"callees of _iterate in the installed SciPy source: {calls}"))
+    ini = [n for n in ast.walk(tree) if isinstance(n, ast.FunctionDef) and n.name == "__init__"]
+    need(len(ini) >= 1, "LSBUD: DCSRCH.__init__ not found in SciPy's source")
+    icalls = sorted({dotted(c.func) or "?" for c in ast.walk(ini[0]) if isinstance(c, ast.Call)})
+    ibad = [c for c in icalls if c in ("self.phi", "self.derphi", "phi", "derphi")]
+    obs.append(Ob("LSBUD", "SciPy's DCSRCH constructor does not call phi / derphi", os.path.relpath(p, "/"), ini[0].lineno,
+                  "scipy.optimize._dcsrch.DCSRCH.__init__", "DCSRCH.__init__ body", not ibad,
+                  f"callees of __init__ in the installed SciPy source: {icalls}"))
     return obs
